@@ -123,6 +123,15 @@ def gen_case(rng, kind, subtype, G, boxlimit, n_el=10):
     Bs = B.copy()
     Bs[:, [0, 2]] = B[:, [0, 2]] * s + 2 * tx
     Bs[:, [1, 3]] = B[:, [1, 3]] * s + 2 * ty
+    if not subtype.startswith("float") and len(Bs):
+        # box ends strictly between the values an integer coordinate subtype can hold (half-integers) and, for the
+        # float32 analogue, see the point/multipoint cases of C02 / C04
+        P = Bs.copy()
+        sel = rng.random(P.shape) < 0.3
+        P[sel & (P % 2 == 0)] += rng.choice([-1, 1], size=int((sel & (P % 2 == 0)).sum()))
+        okb = (P[:, 0] < P[:, 2]) & (P[:, 1] < P[:, 3]) if not degenerate_ok else \
+            (P[:, 0] <= P[:, 2]) & (P[:, 1] <= P[:, 3])
+        Bs[okb] = P[okb]
     return {"kind": kind, "subtype": subtype, "elements": elements, "cells": ecells,
             "stretch": [s * m_, tx, ty], "boxes2": Bs.tolist()}
 
